@@ -74,7 +74,37 @@ pub fn tr_method(cx: &mut Ctx, m: &ExprMethodCall, expected: Option<&Ty>) -> R<T
                 "is_infinite" => Ok(Tr::new(format!("(RFun.isInf {})", recv.s), Ty::Bool)),
                 "is_finite" => Ok(Tr::new(format!("(RFun.isFinite {})", recv.s), Ty::Bool)),
                 "powf" => {
+                    // rustc/LLVM fold `pow` with a literal operand (no fast-math needed): pow(x, 2.0) → x*x,
+                    // pow(2.0, y) → exp2(y); both differ from libm's pow in the last bit now and then.  Other
+                    // literal exponents LLVM rewrites (-1.0, 0.5, 1.0, 0.0) do not occur in statrs; refuse them
+                    // rather than guess.
+                    let lit = |e: &Expr| -> Option<f64> {
+                        let mut e = e;
+                        loop {
+                            match e {
+                                Expr::Paren(p) => e = &p.expr,
+                                Expr::Group(g) => e = &g.expr,
+                                _ => break,
+                            }
+                        }
+                        match e {
+                            Expr::Lit(ExprLit { lit: Lit::Float(f), .. }) => f.base10_parse::<f64>().ok(),
+                            Expr::Lit(ExprLit { lit: Lit::Int(i), .. }) if i.suffix() == "f64" => i.base10_parse::<f64>().ok(),
+                            _ => None,
+                        }
+                    };
+                    if let Some(v) = lit(arg(m, 0)?) {
+                        if v == 2.0 {
+                            return Ok(Tr::new(format!("(powfLit2 {})", recv.s), Ty::F64));
+                        }
+                        if v == -1.0 || v == 0.5 || v == 1.0 || v == 0.0 {
+                            return Err(format!("powf with literal exponent {} (compiled to a different operation; not modelled)", v));
+                        }
+                    }
                     let a = tr_expr(cx, arg(m, 0)?, Some(&Ty::F64))?;
+                    if lit(&m.receiver) == Some(2.0) {
+                        return Ok(Tr::new(format!("(pow2Lit {})", a.s), Ty::F64));
+                    }
                     Ok(Tr::new(format!("(RFun.pow {} {})", recv.s, a.s), Ty::F64))
                 }
                 "powi" => {
